@@ -1045,6 +1045,22 @@ func checkParenExpr(x target.Expr) target.Expr {
 	return util.CheckParenExpr(x)
 }
 
+// checkHeaderExpr parenthesizes composite literals in x that are ambiguous in the header of
+// an if, for or switch statement; checkHeaderStmt does so for an init or post statement.
+func checkHeaderExpr(x target.Expr) target.Expr {
+	if x == nil {
+		return nil
+	}
+	return util.CheckHeaderExpr(x)
+}
+
+func checkHeaderStmt(s target.Stmt) target.Stmt {
+	if s == nil {
+		return nil
+	}
+	return util.CheckHeaderStmt(s)
+}
+
 type backupElem struct {
 	typ types.Type
 	val target.Expr
